@@ -24,8 +24,18 @@ class VarRel (R : IndexCtx → IndexCtx → Prop) : Prop where
 class NoScopeRel (R : IndexCtx → IndexCtx → Prop) : Prop where
   scopes : ∀ c c' s, R c c' → R c { c' with scopes := s }
 
-section prims
-variable {R : IndexCtx → IndexCtx → Prop} [StdRel R]
+/-- what the pass over the indexer needs from a relation: the steps of the `SymMap` API, drawing an
+anonymous name, reporting a diagnostic, and (as a whole, because it switches the current file and
+marks the included file) `include`.  Every `StdRel` is an instance; relations that talk about the
+diagnostics / the file trace (`IdeSemDiag.lean`) are instances directly. -/
+class CoreRel (R : IndexCtx → IndexCtx → Prop) : Prop extends KeepRel R where
+  sm : ∀ c sm', SmStep c.symbolMap sm' → R c { c with symbolMap := sm' }
+  anon : Keeps R nextAnonymousDefName
+  error : ∀ rg msg, Keeps R (error rg msg)
+  incl : ∀ (r : Rec), (∀ n, Keeps R (r.sourceFile n)) → ∀ n, Keeps R (Index.indexInclude r n)
+
+section prims0
+variable {R : IndexCtx → IndexCtx → Prop} [KeepRel R]
 
 theorem currentFileId_keeps : Keeps R currentFileId := by
   unfold currentFileId panic
@@ -35,35 +45,60 @@ macro_rules | `(tactic| keeps_prim) => `(tactic| exact currentFileId_keeps)
 theorem panic_keeps {α : Type} (msg : String) : Keeps R (panic msg : IxM α) := Keeps.throw _
 macro_rules | `(tactic| keeps_prim) => `(tactic| exact panic_keeps _)
 
+end prims0
+
+section primsStd
+variable {R : IndexCtx → IndexCtx → Prop} [StdRel R]
+
 theorem markIndexed_keeps (f : Nat) : Keeps R (markIndexed f) := by
   unfold markIndexed
   refine Keeps.modifyGet _ fun c => ?_
   split <;> exact StdRel.of_eq _ _ rfl rfl rfl
-macro_rules | `(tactic| keeps_prim) => `(tactic| exact markIndexed_keeps _)
 
 theorem pushFile_keeps (f : Nat) : Keeps R (pushFile f) :=
   Keeps.modify _ fun _ => StdRel.of_eq _ _ rfl rfl rfl
-macro_rules | `(tactic| keeps_prim) => `(tactic| exact pushFile_keeps _)
 
 theorem popFile_keeps : Keeps R popFile := by
   unfold popFile
   keeps
   exact Keeps.modify _ fun _ => StdRel.of_eq _ _ rfl rfl rfl
-macro_rules | `(tactic| keeps_prim) => `(tactic| exact popFile_keeps)
+
+theorem error_keeps_std (rg : Nat × Nat) (msg : String) : Keeps R (error rg msg) := by
+  unfold error
+  keeps
+  exact Keeps.modify _ fun _ => StdRel.of_eq _ _ rfl rfl rfl
+
+instance : CoreRel R where
+  sm := StdRel.sm
+  anon := Keeps.modifyGet _ fun _ => StdRel.of_eq _ _ rfl rfl rfl
+  error := error_keeps_std
+  incl := fun r hsf n => by
+    unfold Index.indexInclude
+    refine Keeps.bind currentFileId_keeps fun fileId => Keeps.bind Keeps.get fun c0 => ?_
+    dsimp only
+    split
+    · exact error_keeps_std _ _
+    · refine Keeps.bind (markIndexed_keeps _) fun b => ?_
+      split
+      · exact Keeps.pure _
+      · split
+        · exact Keeps.bind (pushFile_keeps _) fun _ => Keeps.bind (hsf _) fun _ => popFile_keeps
+        · exact Keeps.pure _
+
+end primsStd
+
+section prims
+variable {R : IndexCtx → IndexCtx → Prop} [CoreRel R]
 
 theorem resolveId_keeps (name : String) : Keeps R (resolveId name) := by
   unfold resolveId
   keeps
 macro_rules | `(tactic| keeps_prim) => `(tactic| exact resolveId_keeps _)
 
-theorem error_keeps (rg : Nat × Nat) (msg : String) : Keeps R (error rg msg) := by
-  unfold error
-  keeps
-  exact Keeps.modify _ fun _ => StdRel.of_eq _ _ rfl rfl rfl
+theorem error_keeps (rg : Nat × Nat) (msg : String) : Keeps R (error rg msg) := CoreRel.error rg msg
 macro_rules | `(tactic| keeps_prim) => `(tactic| exact error_keeps _ _)
 
-theorem nextAnonymousDefName_keeps : Keeps R nextAnonymousDefName :=
-  Keeps.modifyGet _ fun _ => StdRel.of_eq _ _ rfl rfl rfl
+theorem nextAnonymousDefName_keeps : Keeps R nextAnonymousDefName := CoreRel.anon
 macro_rules | `(tactic| keeps_prim) => `(tactic| exact nextAnonymousDefName_keeps)
 
 theorem currentRecordId_keeps : Keeps R currentRecordId := by unfold currentRecordId; keeps
@@ -86,7 +121,7 @@ macro_rules | `(tactic| keeps_prim) => `(tactic| exact canBeCastedTo_keeps _ _)
 /-- `modifySM` with a function whose effect is one API step -/
 theorem modifySM_keeps {α : Type} (f : SymMap → α × SymMap) (hf : ∀ sm, SmStep sm (f sm).2) :
     Keeps R (modifySM f) :=
-  Keeps.modifyGet _ fun c => StdRel.sm c _ (hf c.symbolMap)
+  Keeps.modifyGet _ fun c => CoreRel.sm c _ (hf c.symbolMap)
 
 theorem addRecord_keeps (r : Record) (g : Bool) : Keeps R (addRecord r g) :=
   modifySM_keeps _ fun sm => .addRecord sm r g
@@ -158,7 +193,7 @@ end prims
 section passA
 set_option linter.unusedSectionVars false
 set_option linter.unusedVariables false
-variable {R : IndexCtx → IndexCtx → Prop} [StdRel R] {r : Rec}
+variable {R : IndexCtx → IndexCtx → Prop} [CoreRel R] {r : Rec}
   (hv : ∀ n, Keeps R (r.value n)) (ht : ∀ n, Keeps R (r.typ n))
 include hv ht
 
